@@ -8,7 +8,7 @@ if not os.path.isdir(W):
     os.makedirs('/tmp/mt', exist_ok=True); print(sh('git -C /repo worktree add --detach %s HEAD' % W).stdout)
 head = sh('git -C /repo rev-parse HEAD').stdout.strip()
 OUT = sys.argv[1] if len(sys.argv) > 1 else 'out'      # 'out' = round 1, 'out2' = round 2 (harder: state, size, cooperating sites)
-PREFIX = {'out': '', 'out2': 'r2', 'out3': 'r3', 'out4': 'r4', 'out5': 'r5'}[OUT]
+PREFIX = {'out': '', 'out2': 'r2', 'out3': 'r3', 'out4': 'r4', 'out5': 'r5', 'out6': 'r6'}[OUT]
 for i in range(1, 21):
     pid = 'C%02d' % i
     for mname in sorted(os.listdir('/tmp/sa/c%02d/%s' % (i, OUT))) if os.path.isdir('/tmp/sa/c%02d/%s' % (i, OUT)) else []:
@@ -29,7 +29,7 @@ for i in range(1, 21):
             for f in ('patch.diff', 'demo.py', 'notes.md'):
                 shutil.copy(os.path.join(src, f), os.path.join(dst, f))
             notes = open(os.path.join(src, 'notes.md'), encoding='utf-8').read()
-            json.dump({'property': pid, 'origin': 'independent sub-agent given only the property text and a scratch worktree' + ({'': '', 'r2': ' (round 2: asked for changes that need state, size thresholds or cooperating sites)', 'r3': ' (round 3: asked for corners of the input and configuration space, entry points that should agree, feature interactions)', 'r4': ' (round 4: asked for value-specific regressions a strong random checker would still miss)', 'r5': ' (round 5: asked for changes of the kind that land through ordinary maintenance - near-refactorings, optimisations, lenient fixes, small features, neighbouring bug fixes, changed hand-over of data - that break the property on ordinary inputs)'}[PREFIX]),
+            json.dump({'property': pid, 'origin': 'independent sub-agent given only the property text and a scratch worktree' + ({'': '', 'r2': ' (round 2: asked for changes that need state, size thresholds or cooperating sites)', 'r3': ' (round 3: asked for corners of the input and configuration space, entry points that should agree, feature interactions)', 'r4': ' (round 4: asked for value-specific regressions a strong random checker would still miss)', 'r5': ' (round 5: asked for changes of the kind that land through ordinary maintenance - near-refactorings, optimisations, lenient fixes, small features, neighbouring bug fixes, changed hand-over of data - that break the property on ordinary inputs)', 'r6': ' (round 6: told what a very strong checker already does and asked for what it would still miss: coincidences of three features, order, unusual but legitimate API use, subclass hooks, rarely set attributes, failure paths, second-time effects, details oracles rarely compare)'}[PREFIX]),
                        'needs_to_manifest': notes.strip()[:1500],
                        'verified': {'patch_applies_to': head, 'unit_tests_with_patch': tests.stdout.strip(),
                                     'demo_without_patch_rc': before.returncode, 'demo_with_patch_rc': after.returncode,
